@@ -107,9 +107,36 @@ def one_diff(A, Bn):
     return cost, psig(th.extract(top), pf2, pt)
 
 
+_CACHES = [None]
+
+
+def fresh_process_state():
+    """every path models a fresh process: memo tables that graphtage modules keep across calls (functools caches found on
+    module-level functions and on class attributes) are emptied at the start of the path, so that what the first diff leaves
+    behind is seen by the second diff of the *same* path only"""
+    if _CACHES[0] is None:
+        import sys
+        found = []
+        for name, mod in list(sys.modules.items()):
+            if not (name == 'graphtage' or name.startswith('graphtage.')) or mod is None:
+                continue
+            for v in list(vars(mod).values()):
+                if callable(getattr(v, 'cache_clear', None)):
+                    found.append(v)
+                elif isinstance(v, type) and getattr(v, '__module__', '').startswith('graphtage'):
+                    for w in list(vars(v).values()):
+                        w = getattr(w, '__func__', w)
+                        if callable(getattr(w, 'cache_clear', None)):
+                            found.append(w)
+        _CACHES[0] = found
+    for c in _CACHES[0]:
+        c.cache_clear()
+
+
 @guarded
 def body(A, Bn, objA, objB, job):
     fails = []
+    fresh_process_state()
     sa, sb = snapshot(A), snapshot(Bn)
     c1, s1 = one_diff(A, Bn)
     if snapshot(A) != sa or snapshot(Bn) != sb:
@@ -199,23 +226,30 @@ def jobs(tier, seed):
     # string values so that StringEdit / string_edit_distance state is exercised twice in one process
     def CD(keys, vals):
         return ('dict', list(zip(keys, vals)))
-    strs = [
-        ('DSc', CD('pq', [('s', 2), ('s', 2)]), CD('rs', [('s', 2), ('s', 2)])),
-        ('DSc2', CD('pq', [('s', 2), ('s', 1)]), CD('rs', [('s', 2), ('s', 2)])),
-        ('LS', L(('s', 2), ('s', 2)), L(('s', 2), ('s', 1))),
-    ]
-    if tier == 'quick':
-        strs = []          # string-valued mappings diffed twice exceed the quick budget by far (measured); thorough only
-    # measured: even the smallest string-valued mapping pair (DSc, 2+2 concrete unshared keys, 2-letter values over a 2-letter
-    # alphabet), diffed twice per path, does not exhaust within 55 minutes on 16 cores -> not run in either tier; the state-leak
-    # class of defects (seed C07) is therefore only covered for scalar-valued documents
+    # measured: even the smallest mapping pair with *symbolic* 2-letter values under single-letter keys (DSc), diffed twice per
+    # path, does not exhaust within 55 minutes on 16 cores -> not run in either tier.  State leaking between two diffs through
+    # string_edit_distance needs keys of >= 2 characters (single characters take the shortcut in StringNode.edits), so the
+    # repeated-call question is asked on mappings with *concrete* multi-character keys that compete for each other (shared
+    # letters, different lengths) and symbolic 1-2 letter values over a 2-letter alphabet (value pairs repeat among the edges)
+    keysets = [(['bbbb', 'a'], ['baa', 'b']), (['abc', 'b'], ['bc', 'ab'])]
+    vsets = [([('s', 1), ('s', 1)], [('s', 1), ('s', 2)])]
+    if tier != 'quick':
+        keysets += [(['ab', 'ba'], ['aa', 'bb']), (['aab', 'abb'], ['ab', 'b']), (['bbbb', 'a', 'ab'], ['baa', 'b'])]
+        vsets += [([('s', 2), ('s', 1)], [('s', 1), ('s', 2)]), ([('i', 1), ('i', 1)], [('i', 1), ('i', 2)])]
+    for ki, (ka, kb) in enumerate(keysets):
+        for vi, (va, vb) in enumerate(vsets):
+            va2 = (va + va)[:len(ka)]
+            out.append(dict(fam=f'dict-ckeys-{ki}{vi}', A=CD(ka, va2), B=CD(kb, vb), dict='auto', list='on', weight=30, alpha=2,
+                            split_depth=24))
     return out
 
 
 META = dict(functions=th.TREE_FUNCTIONS + ["TreeNode.make_edited / editable_dict (copy before annotate)", "FixedKeyDictNode._child_edits "
                                             "(set iteration)", "HashableCounter / DictNode.from_dict ordering"],
             stubs=th.TREE_STUBS + ["set() inside graphtage.graphtage -> set with engine-chosen iteration order (models the string hash seed)"],
-            assumptions=th.TREE_ASSUME + ["hash-seed variation is modelled in-process through set iteration order; a counterexample that one "
+            assumptions=th.TREE_ASSUME + ["every explored path stands for a fresh process that diffs the same pair twice: functools caches held by "
+                                          "graphtage modules are emptied at the start of a path (never between the two diffs)",
+                                          "hash-seed variation is modelled in-process through set iteration order; a counterexample that one "
                                           "process cannot reproduce is replayed in fresh interpreters under PYTHONHASHSEED=1..4 (plain diff, no "
                                           "stub) and counts only if cost or script order differ between seeds"],
             files=th.TREE_FILES + ["graphtage/utils.py"],
